@@ -240,13 +240,15 @@ func (nak *NesterAccountKeeper) RemoveAccount(account EthAccount) {
 	nak.state.Delete(prefixKey)
 
 	// the balance is kept in the balance store (see SetAccount): without this write the record of a
-	// self-destructed contract keeps the amount that was already paid out to its beneficiary
+	// self-destructed contract keeps the amount that was already paid out to its beneficiary. A
+	// removed account is gone with whatever it still holds (what was paid to it after the self
+	// destruct is burnt), otherwise the address comes back as a funded legacy account
 	stored, err := nak.getOrCreateCurrencyBalance(account.Address, nil)
-	if err != nil || account.Coins.Amount == nil {
+	if err != nil {
 		return
 	}
-	if stored.Amount.BigInt().Cmp(account.Coins.Amount.BigInt()) != 0 {
-		err = nak.balances.SetBalance(account.Address, Coin{Currency: stored.Currency, Amount: account.Coins.Amount})
+	if stored.Amount.BigInt().Sign() != 0 {
+		err = nak.balances.SetBalance(account.Address, Coin{Currency: stored.Currency, Amount: NewAmount(0)})
 		if err != nil {
 			nak.logger.Error("Failed to set balance of removed account", account.Address, err)
 		}
